@@ -58,6 +58,33 @@ def run_la_impl(hist):
     return k, fam, parse_arch_str(str(a)), a
 
 
+def run_la_impl_lenient(hist):
+    """The caller catches every rejection and goes on with the same builder object.
+    -> (list of accepted flags, error families of the rejected calls, listing at the end)"""
+    LA, _ = impl()
+    a = LA()
+    flags, fams = [], []
+    for c in hist:
+        try:
+            if c[0] == "layer":
+                a = chain(a.layer(c[1]), "layer")
+            elif c[0] == "str":
+                a = chain(a.containing_modules(c[1]), "containing_modules")
+            elif c[0] == "list":
+                a = chain(a.containing_modules(list(c[1])), "containing_modules")
+            elif c[0] == "regex":
+                a = chain(a.have_modules_with_names_matching(c[1]), "have_modules_with_names_matching")
+            elif c[0] == "peek":
+                continue
+            else:
+                a = chain(a.with_layer(), "with_layer")
+            flags.append(True)
+        except Exception as e:  # noqa: BLE001
+            flags.append(False)
+            fams.append(rules.classify_exception(e))
+    return flags, fams, parse_arch_str(str(a))
+
+
 ARCH_RE = re.compile(r"Layer ([^:;]+): \[([^\]]*)\]")
 
 
